@@ -786,6 +786,12 @@ impl<'a> Run<'a> {
 	// (b) timeliness: claims exist as soon as they are possible
 	// ---------------------------------------------------------------------------------------------
 
+	/// the node's log contains the library's refusal to build a claim because the bumped fee would leave less than
+	/// the dust limit (only reachable on the fee-bump path, i.e. for a claim that descends from an earlier one)
+	fn bump_refusal_logged(&self, node: usize) -> bool {
+		self.sim.w.noted(node, "bump-refused-below-dust")
+	}
+
 	fn node_has_mempool_spend(&self, node: usize, op: &OutPoint) -> bool {
 		self.sim.chain.mempool.iter().any(|t| t.input.iter().any(|i| i.previous_output == *op) && self.by.get(&t.compute_txid()) == Some(&node))
 	}
@@ -805,6 +811,9 @@ impl<'a> Run<'a> {
 					let why = match &refused {
 						Some((_, Reject::AlreadySpent(o, _))) if *o != op => "claim-aggregated-with-spent-output".to_string(),
 						Some((_, r)) => format!("claim-refused-{}", reject_kind(r)),
+						// same listed root cause when the aggregate was split before any refused broadcast of it was
+						// seen: the node logged that it cannot bump the remainder below the dust limit and issued nothing
+						None if self.bump_refusal_logged(h.receiver) => "claim-aggregated-with-spent-output".to_string(),
 						None => "no-claim".to_string(),
 					};
 					return Err(fail(
@@ -819,6 +828,9 @@ impl<'a> Run<'a> {
 					let why = match &refused {
 						Some((_, Reject::AlreadySpent(o, _))) if *o != op => "claim-aggregated-with-spent-output".to_string(),
 						Some((_, r)) => format!("claim-refused-{}", reject_kind(r)),
+						// same listed root cause when the aggregate was split before any refused broadcast of it was
+						// seen: the node logged that it cannot bump the remainder below the dust limit and issued nothing
+						None if self.bump_refusal_logged(h.offerer) => "claim-aggregated-with-spent-output".to_string(),
 						None => "no-claim".to_string(),
 					};
 					return Err(fail(
@@ -1225,6 +1237,9 @@ impl<'a> Run<'a> {
 					let why = match &refused {
 						Some((_, Reject::AlreadySpent(o, _))) if *o != op => "claim-aggregated-with-spent-output".to_string(),
 						Some((_, r)) => format!("claim-refused-{}", reject_kind(r)),
+						// same listed root cause when the aggregate was split before any refused broadcast of it was
+						// seen: the node logged that it cannot bump the remainder below the dust limit and issued nothing
+						None if self.bump_refusal_logged(h.offerer) => "claim-aggregated-with-spent-output".to_string(),
 						None => "no-claim".to_string(),
 					};
 					let f = fail("htlc-output-unclaimed", format!("chan {}: HTLC output {} ({} sat, expiry {}, offered by node {}) was never claimed by anyone (last refused attempt of the offerer: {:?})", cl.chan, op, h.sat(), h.cltv, h.offerer, refused))
